@@ -80,6 +80,13 @@ func gen(tier string) []proto.Item {
 								}
 							}
 						}
+						if resp.name == "foreign-host" && simnet.IsICMPError(form) {
+							// the foreign host's error quotes a datagram addressed to ITSELF (it is the nearer target of some other
+							// traceroute from this host, same ports / identifiers): it says nothing about our target
+							s4 := base(v, r.first, r.last, dest)
+							s4.Hops = map[int]proto.HopSpec{pos.ttl: {Form: form, From: resp.addr, Perturb: &simnet.Perturb{Field: "q.dst", Op: "responder"}, Tag: "quotes-itself"}}
+							items = append(items, proto.Item{Scn: s4, Class: fmt.Sprintf("%s/%s/%s/%s/from-foreign-host-quoting-itself-as-destination/alone", v, rtag, pos.name, form)})
+						}
 						// together with the position's ordinary reply, before and after it
 						for _, order := range []string{"first", "second"} {
 							s := base(v, r.first, r.last, dest)
